@@ -102,6 +102,10 @@ impl BDDSet {
 
     pub fn contains<T: BDDCategorizable>(&self, e: T) -> bool {
         let singleton = Self::from_element(e, self.bits, &self.env);
-        self.intersect(&singleton) == &singleton
+        let singleton_bdd = singleton.bdd.borrow().clone();
+        let _self = self.bdd.borrow().clone();
+
+        // a membership query must not modify the set: intersect on the diagrams, not on self
+        self.env.and(_self, singleton_bdd.clone()) == singleton_bdd
     }
 }
